@@ -1063,6 +1063,277 @@ def kwargs_case(draw):
     return out
 
 
+# ------------------------------------------------------------------------------------------ argument forms
+#
+# The same VALUES handed over in another form - integer dtypes, nested python lists / tuples, float32, read-only,
+# Fortran-ordered or strided arrays, integer scalars - must give the float64 answer. Only exactly representable values
+# take the narrowing forms (signed permutation matrices, integer translations / points / scales / quaternions).
+
+
+def _is_int(v):
+    a = np.asarray(v, dtype=np.float64)
+    return bool(np.all(a == np.round(a)) and np.all(np.abs(a) < 2**31))
+
+
+def _is_f32(v):
+    a = np.asarray(v, dtype=np.float64)
+    return bool(np.all(a.astype(np.float32).astype(np.float64) == a))
+
+
+ARRAY_FORMS = ["float64", "list", "tuple", "readonly", "fortran", "strided", "float32", "int64", "int32", "list_int"]
+SCALAR_FORMS = ["float", "pyint", "npint64", "npfloat32", "npfloat64"]
+
+
+def admissible(value, form):
+    if value is None:
+        return form in ("float64", "float")
+    if np.ndim(value) == 0:
+        if form not in SCALAR_FORMS:
+            return False
+        return _is_int(value) if form in ("pyint", "npint64") else _is_f32(value) if form == "npfloat32" else True
+    if form not in ARRAY_FORMS:
+        return False
+    return _is_int(value) if form in ("int64", "int32", "list_int") else _is_f32(value) if form == "float32" else True
+
+
+def _nest(a, conv):
+    return [_nest(x, conv) for x in a] if isinstance(a, list) else conv(a)
+
+
+def as_form(value, form, ndarray_only=False):
+    if value is None:
+        return None
+    if np.ndim(value) == 0:
+        v = float(value)
+        return {"float": v, "pyint": int(v) if form == "pyint" else v, "npint64": np.int64(v) if form == "npint64" else v, "npfloat32": np.float32(v), "npfloat64": np.float64(v)}[form]
+    a = np.array(value, dtype=np.float64)
+    if form == "float64":
+        return a
+    if form == "list":
+        return a.tolist()
+    if form == "tuple":
+        return _nest(a.tolist(), float) if a.ndim != 1 else tuple(a.tolist())
+    if form == "list_int":
+        return _nest(a.tolist(), int)
+    if form == "readonly":
+        a.flags.writeable = False
+        return a
+    if form == "fortran":
+        return np.asfortranarray(a)
+    if form == "strided":
+        big = np.full(tuple(2 * n for n in a.shape), 7.5)
+        big[tuple(slice(None, None, 2) for _ in a.shape)] = a
+        return big[tuple(slice(None, None, 2) for _ in a.shape)]
+    if form == "float32":
+        return a.astype(np.float32)
+    return a.astype(form)
+
+
+def _rt_rot(out):
+    ang, d, pt = out
+    return [tf.rotation_matrix(float(ang), A(d), A(pt)[:3])]
+
+
+def _rt_scale(out):
+    f, o, d = out
+    return [tf.scale_matrix(float(f), A(o)[:3], None if d is None else A(d))]
+
+
+def _rt_trs(out):
+    return [tf.compose_matrix(*[A(x) for x in out])]
+
+
+# name -> (argument names, call(args dict), canonical form of the result: list of float arrays, list-like forms allowed)
+FORM_FUNCS = {
+    "transform_around": (["matrix", "point"], lambda a: tf.transform_around(a["matrix"], a["point"]), None, True),
+    "transform_points": (["points", "matrix"], lambda a: tf.transform_points(a["points"], a["matrix"]), None, True),
+    "transform_points_notranslate": (["points", "matrix"], lambda a: tf.transform_points(a["points"], a["matrix"], translate=False), None, True),
+    "rotation_matrix": (["angle", "direction", "point"], lambda a: tf.rotation_matrix(a["angle"], a["direction"], a["point"]), None, True),
+    "rotation_from_matrix": (["matrix"], lambda a: tf.rotation_from_matrix(a["matrix"]), _rt_rot, True),
+    "quaternion_matrix": (["q"], lambda a: tf.quaternion_matrix(a["q"]), None, True),
+    "quaternion_from_matrix": (["matrix"], lambda a: tf.quaternion_from_matrix(a["matrix"], isprecise=False), lambda q: [ref.quat_to_mat(q)], True),
+    "quaternion_from_matrix_precise": (["matrix"], lambda a: tf.quaternion_from_matrix(a["matrix"], isprecise=True), lambda q: [ref.quat_to_mat(q)], True),
+    "quaternion_multiply": (["q", "p"], lambda a: tf.quaternion_multiply(a["q"], a["p"]), None, True),
+    "quaternion_conjugate": (["q"], lambda a: tf.quaternion_conjugate(a["q"]), None, True),
+    "quaternion_inverse": (["q"], lambda a: tf.quaternion_inverse(a["q"]), None, True),
+    "quaternion_slerp": (["q", "p"], lambda a: tf.quaternion_slerp(a["q"], a["p"], 0.25), None, True),
+    "quaternion_about_axis": (["angle", "direction"], lambda a: tf.quaternion_about_axis(a["angle"], a["direction"]), None, True),
+    "euler_matrix": (["ai", "aj", "ak"], lambda a: tf.euler_matrix(a["ai"], a["aj"], a["ak"], "rzxy"), None, True),
+    "quaternion_from_euler": (["ai", "aj", "ak"], lambda a: tf.quaternion_from_euler(a["ai"], a["aj"], a["ak"], "syxz"), None, True),
+    "euler_from_matrix": (["matrix"], lambda a: tf.euler_from_matrix(a["matrix"], "sxyz"), lambda e: [ref.euler_ref(float(e[0]), float(e[1]), float(e[2]), "sxyz")], True),
+    "euler_from_quaternion": (["q"], lambda a: tf.euler_from_quaternion(a["q"], "rzyz"), lambda e: [ref.euler_ref(float(e[0]), float(e[1]), float(e[2]), "rzyz")], True),
+    "compose_matrix": (["scale", "shear", "angles", "translate"], lambda a: tf.compose_matrix(a["scale"], a["shear"], a["angles"], a["translate"]), None, True),
+    "decompose_matrix": (["matrix"], lambda a: tf.decompose_matrix(a["matrix"]), _rt_trs, True),
+    "scale_matrix": (["factor", "origin", "direction"], lambda a: tf.scale_matrix(a["factor"], a["origin"], a["direction"]), None, True),
+    "scale_from_matrix": (["matrix"], lambda a: tf.scale_from_matrix(a["matrix"]), _rt_scale, True),
+    "planar_matrix": (["offset", "theta", "point2", "scale2"], lambda a: tf.planar_matrix(a["offset"], a["theta"], a["point2"], a["scale2"]), None, True),
+    "planar_matrix_to_3D": (["matrix2"], lambda a: tf.planar_matrix_to_3D(a["matrix2"]), None, True),
+    "scale_and_translate": (["scale", "translate"], lambda a: tf.scale_and_translate(a["scale"], a["translate"]), None, True),
+    "is_rigid": (["matrix"], lambda a: np.array([float(bool(tf.is_rigid(a["matrix"])))]), None, True),
+    "fix_rigid": (["matrix"], lambda a: tf.fix_rigid(a["matrix"]), None, False),
+    "align_vectors": (["direction", "normal"], lambda a: geometry.align_vectors(a["direction"], a["normal"]), None, True),
+    "plane_transform": (["point", "normal"], lambda a: geometry.plane_transform(a["point"], a["normal"]), None, True),
+    "kwargs_matrix": (["matrix"], lambda a: kwargs_to_matrix(matrix=a["matrix"]), None, True),
+    "kwargs_quaternion": (["q", "translate"], lambda a: kwargs_to_matrix(quaternion=a["q"], translation=a["translate"]), None, True),
+    "kwargs_axis_angle": (["direction", "angle", "translate"], lambda a: kwargs_to_matrix(axis=a["direction"], angle=a["angle"], translation=a["translate"]), None, True),
+}
+
+
+ANGLE_ARGS = ("angle", "ai", "aj", "ak", "theta", "angles")
+
+
+def _flat(out, canon):
+    if canon is not None:
+        out = canon(out)
+    if isinstance(out, np.ndarray) or not isinstance(out, (list, tuple)):
+        out = [out]
+    return [np.asarray(o, dtype=np.float64) for o in out if o is not None]
+
+
+@body("C19.forms")
+def b_forms(case, ctx):
+    name = case["fn"]
+    names, call, canon, lists_ok = FORM_FUNCS[name]
+    vals, forms = case["args"], case["forms"]
+    for k in names:
+        harness(admissible(vals[k], forms[k]) and (lists_ok or forms[k] not in ("list", "tuple", "list_int")), f"form {forms[k]} not admissible for {name}.{k}={vals[k]}")
+    base = {k: as_form(vals[k], "float64" if np.ndim(vals[k]) else "float") for k in names}
+    want = _flat(call(base), canon)
+    args = {k: as_form(vals[k], forms[k]) for k in names}
+    changed = sorted({forms[k] for k in names if vals[k] is not None and forms[k] not in ("float64", "float")})
+    ctx.note(nontrivial=bool(changed), cls=[f"forms:{name}"] + [f"forms:{f}" for f in changed])
+    sig = f"C19.forms|{name}|" + "+".join(changed or ["float64"])
+    watched = [(k, a, a.copy()) for k, a in args.items() if isinstance(a, np.ndarray)]
+    raw = call(args)
+    for k, a, c in watched:
+        check(np.array_equal(a, c), sig + "|mutates_input", lambda: f"argument {k} changed from {c.tolist()} to {a.tolist()}")
+    # a conversion returns floating point whatever came in (fix_rigid documents returning its argument untouched)
+    if name != "fix_rigid":
+        for o in raw if isinstance(raw, tuple) else (raw,):
+            if isinstance(o, np.ndarray):
+                check(o.dtype == np.float64, sig + "|result_dtype", lambda: f"{name}({ {k: forms[k] for k in names} }) returned dtype {o.dtype}")
+    got = _flat(raw, canon)
+    check(len(got) == len(want) and all(g.shape == w.shape for g, w in zip(got, want)), sig + "|shape", lambda: f"{[g.shape for g in got]} vs {[w.shape for w in want]}")
+    tol = T14 if canon is None else T13
+    if any(forms[k] in ("float32", "npfloat32") for k in names if k in ANGLE_ARGS and vals[k] is not None):
+        # sin / cos of a float32 angle are evaluated in float32 (numpy semantics): float32 accuracy is all there is
+        tol = 16 * float(np.finfo(np.float32).eps)
+    for g, w in zip(got, want):
+        e = maxabs(g - w)
+        check(e <= tol * max(1.0, maxabs(w)), sig, lambda: f"{name} with {({k: forms[k] for k in names})} of {vals}: {g.tolist()} differs from the float64 answer {w.tolist()} by {e:.3g}")
+
+
+def _signed_perms():
+    out = []
+    for perm in itertools.permutations(range(3)):
+        for sg in itertools.product([1.0, -1.0], repeat=3):
+            R = np.zeros((3, 3))
+            for r, c in enumerate(perm):
+                R[r, c] = sg[r]
+            if np.linalg.det(R) > 0:
+                out.append(R)
+    return out
+
+
+ROT24 = _signed_perms()
+QUARTER2 = [np.array(m, dtype=np.float64) for m in ([[1, 0], [0, 1]], [[0, -1], [1, 0]], [[-1, 0], [0, -1]], [[0, 1], [-1, 0]])]
+AXIS_TURNS = [(ax, k) for ax in range(3) for k in (1, 2, 3)]
+
+
+def _form_values(rs):
+    """one consistent set of exactly representable values (rs: RandomState), as plain lists"""
+    R = ROT24[rs.randint(len(ROT24))]
+    t = rs.randint(-4, 5, 3).astype(float) * (1000.0 if rs.randint(4) == 0 else 1.0)
+    ax, k = AXIS_TURNS[rs.randint(len(AXIS_TURNS))]
+    d = np.zeros(3)
+    d[ax] = 1.0
+    Rax = np.round(ref.rodrigues(d, k * PI / 2))
+    c = rs.randint(-3, 4, 3).astype(float)
+    f = float(rs.choice([2, 3, -1, -2, 5]))
+    o = rs.randint(-3, 4, 3).astype(float)
+    frac = rs.randint(0, 2)
+    pt = rs.randint(-8, 9, 3) / (4.0 if frac else 1.0) + (0.3 if frac and rs.randint(2) else 0.0)
+    q = rs.randint(-2, 3, 4).astype(float)
+    if not q.any():
+        q[0] = 1.0
+    p = rs.randint(-2, 3, 4).astype(float)
+    if not p.any() or abs(float(np.dot(ref.unit(q), ref.unit(p)))) > 0.999:
+        p = np.array([q[1], -q[0], q[3], -q[2]]) + np.array([0.0, 0.0, 0.0, 1.0])
+    n = rs.randint(-3, 4, 3).astype(float)
+    if not n.any():
+        n[2] = -1.0
+    dr = rs.randint(-3, 4, 3).astype(float)
+    if not dr.any():
+        dr[0] = 1.0
+    sc = rs.choice([1, 2, 3, -2], 3).astype(float)
+    R2 = QUARTER2[rs.randint(4)]
+    kind = rs.randint(3)
+    mats = {
+        "transform_around": ref.hom(R, t), "transform_points": ref.hom(R * float(rs.choice([1, 2])), t), "transform_points_notranslate": ref.hom(R, t),
+        "rotation_from_matrix": ref.hom(Rax, c - Rax @ c), "quaternion_from_matrix": ref.hom(R), "quaternion_from_matrix_precise": ref.hom(R),
+        "euler_from_matrix": ref.hom(R), "decompose_matrix": ref.hom(R @ np.diag(np.abs(sc)), t),
+        "scale_from_matrix": ref.hom(f * np.eye(3), (1 - f) * o) if kind else ref.hom(np.eye(3) + (f - 1) * np.outer(d, d), (1 - f) * float(o @ d) * d),
+        "is_rigid": ref.hom(R if kind else R * 2.0, t), "fix_rigid": ref.hom(R, t), "kwargs_matrix": ref.hom(R * (1.0 if kind else 3.0), t),
+    }
+    return {
+        "matrices": {k: v.tolist() for k, v in mats.items()},
+        "matrix2": ref.hom(R2 * float(rs.choice([1, 2])), rs.randint(-4, 5, 2).astype(float)).tolist(),
+        "point": pt.tolist(), "points": (rs.randint(-6, 7, (rs.randint(1, 4), 3)) / (2.0 if frac else 1.0)).tolist(),
+        "angle": float(rs.choice([1, 2, -3, 0])), "direction": dr.tolist(), "normal": n.tolist(), "q": q.tolist(), "p": p.tolist(),
+        "ai": float(rs.randint(-3, 4)), "aj": float(rs.randint(-1, 2)), "ak": float(rs.randint(-3, 4)),
+        "scale": sc.tolist(), "shear": rs.randint(-1, 2, 3).astype(float).tolist(), "angles": rs.randint(-3, 4, 3).astype(float).tolist(), "translate": t.tolist(),
+        "factor": f, "origin": None if rs.randint(3) == 0 else o.tolist(), "offset": rs.randint(-5, 6, 2).astype(float).tolist(), "theta": float(rs.randint(-3, 4)),
+        "point2": None if rs.randint(3) == 0 else (rs.randint(-8, 9, 2) / (4.0 if frac else 1.0)).tolist(), "scale2": None if rs.randint(2) else rs.choice([1, 2, 3], 2).astype(float).tolist(),
+    }
+
+
+def form_case(name, seed, mode):
+    """mode: a form name (every admissible argument takes it) or 'arg<i>:<form>' (only that argument does)"""
+    rs = np.random.RandomState(seed)
+    V = _form_values(rs)
+    names, _call, _canon, lists_ok = FORM_FUNCS[name]
+    if name in ("transform_around", "planar_matrix_to_3D") and seed % 2:
+        # the 2-D flavour
+        V["matrices"]["transform_around"] = V["matrix2"]
+        V["point"] = V["point"][:2]
+    vals = {}
+    for k in names:
+        if k == "matrix":
+            vals[k] = V["matrices"][name]
+        elif k == "direction" and name == "scale_matrix":
+            vals[k] = None if seed % 3 == 0 else V["direction"]
+        else:
+            vals[k] = V[k]
+    forms = {}
+    for i, k in enumerate(names):
+        v = vals[k]
+        dflt = "float64" if (v is None or np.ndim(v)) else "float"
+        if ":" in mode:
+            which, f = mode.split(":")
+            f = f if which == f"arg{i}" else dflt
+        else:
+            f = mode
+        if np.ndim(v) == 0 and v is not None and f in ARRAY_FORMS:
+            f = {"int64": "npint64", "int32": "npint64", "list_int": "pyint", "float32": "npfloat32"}.get(f, "float")
+        if v is not None and np.ndim(v) and f in SCALAR_FORMS:
+            f = "float64"
+        if not admissible(v, f) or (not lists_ok and f in ("list", "tuple", "list_int")):
+            f = dflt
+        forms[k] = f
+    return {"fn": name, "args": vals, "forms": forms}
+
+
+def _forms_enum(seeds):
+    for name in FORM_FUNCS:
+        nargs = len(FORM_FUNCS[name][0])
+        for seed in seeds:
+            for f in ARRAY_FORMS[1:]:
+                yield form_case(name, seed, f)
+                if nargs > 1:
+                    for i in range(nargs):
+                        yield form_case(name, seed, f"arg{i}:{f}")
+
+
 # ------------------------------------------------------------------------------------------ sub-checks
 
 
@@ -1255,6 +1526,14 @@ def s_plane(ctx):
     ctx.given("C19.plane", plane_case(), n={"quick": 2000, "thorough": 50000})
 
 
+
+@subcheck("C19", "forms", shards={"quick": 3, "thorough": 8})
+def s_forms(ctx):
+    seeds = range(1, 7) if ctx.tier == "quick" else range(1, 61)
+    ctx.enumerate("C19.forms", _forms_enum(seeds), label="31_functions_x_argument_forms_x_value_sets")
+    ctx.given("C19.forms", st.builds(form_case, st.sampled_from(sorted(FORM_FUNCS)), st.integers(100, 10**6), st.one_of(st.sampled_from(ARRAY_FORMS[1:]), st.builds(lambda i, f: f"arg{i}:{f}", st.integers(0, 3), st.sampled_from(ARRAY_FORMS[1:])))), n={"quick": 1500, "thorough": 60000})
+
+
 REQUIRED_CLASSES["C19"] = [
     "euler:static:norep:gimbal", "euler:static:rep:gimbal", "euler:rotating:norep:gimbal", "euler:rotating:rep:gimbal",
     "euler:static:norep:near_gimbal", "euler:rotating:rep:near_gimbal", "euler:static:norep:regular", "euler:rotating:norep:regular",
@@ -1275,4 +1554,6 @@ REQUIRED_CLASSES["C19"] = [
     "plane:minus_z", "plane:near_minus_z", "plane:generic",
     "kwargs:matrix", "kwargs:quaternion", "kwargs:axis_angle",
     "scale_translate:scale=none",
+    "forms:int64", "forms:int32", "forms:list_int", "forms:float32", "forms:readonly", "forms:fortran", "forms:strided", "forms:tuple", "forms:npint64", "forms:pyint",
+    "forms:transform_around", "forms:transform_points", "forms:rotation_matrix", "forms:planar_matrix", "forms:decompose_matrix", "forms:fix_rigid",
 ]  # fmt: skip
